@@ -6,6 +6,7 @@ d = sys.argv[2]
 n = sys.argv[3] if len(sys.argv) > 3 else "2"
 k0 = int(sys.argv[4]) if len(sys.argv) > 4 else 1          # number of the first change
 AVOID = sys.argv[5] if len(sys.argv) > 5 else ""           # descriptions of changes already taken
+EXTRA = sys.argv[6] if len(sys.argv) > 6 else ""           # extra constraint on where to change
 for l in open("/verif/properties.jsonl"):
     p = json.loads(l)
     if p["id"] == pid:
@@ -27,7 +28,7 @@ Task: produce {n} DIFFERENT, independent source changes to flex (each one a smal
   1. flex still builds and ALL 257 existing tests still pass (`./RUNTESTS.sh` shows FAIL: 0) -- verify this;
   2. the property above is violated for some input/configuration, demonstrated by a small self-contained demonstration (a .l file plus a shell script `demo.sh` that takes the path of a flex binary and of its source dir as $1 and $2, builds the scanner with it, runs it on a fixed input, and exits 0 if behaviour is correct / non-zero if the property is violated) that FAILS with your change and PASSES on the unmodified tree;
   3. the change needs something specific to manifest -- an unusual input, a particular option combination, a multi-step sequence of API calls, a boundary size, two cooperating sites that each look fine alone -- NOT something that ordinary use (or the test suite) would expose at once. Prefer realistic bugs: off-by-one, a dropped special case, a wrong condition, a missing reset/restore, a wrong table width, a swapped argument.
-{("Do NOT reuse any of these ideas, which have already been done by someone else: " + AVOID + chr(10)) if AVOID else ""}Make the {n} changes different in kind and in the code they touch (e.g. one in the generator C code, one in a skeleton).
+{("Do NOT reuse any of these ideas, which have already been done by someone else: " + AVOID + chr(10)) if AVOID else ""}{(EXTRA + chr(10)) if EXTRA else ""}Make the {n} changes different in kind and in the code they touch (e.g. one in the generator C code, one in a skeleton).
 
 Procedure for each change k (k = {k0}..{k0 + int(n) - 1}): start from a clean tree (`git -C {d} checkout -- src`), edit, run ./RUNTESTS.sh, write the demo, check the demo fails with the change, save `git -C {d} diff -- src > {d}/seed{pid}_k.diff`, then `git -C {d} checkout -- src`, rebuild with ./RUNTESTS.sh and check the demo passes on the clean tree. Put the demo files in {d}/seed{pid}_k/ (spec .l, demo.sh, any input files). Leave the tree clean at the end.
 
